@@ -9,6 +9,7 @@ whole-tree normal form `normG` is tied to the code by the `gobRoundTrip` corresp
 -/
 import APModel.Props.C01
 import APModel.Theory.DeepGob
+import APModel.Generated.GobFlags
 
 namespace APModel.Codec
 open APModel APModel.Generated
@@ -94,3 +95,18 @@ example : roundTrip envGob sampleListen = normG sampleListen := C03_deep _ sampl
 
 end APModel.DeepGob
 
+namespace APModel.Codec
+open APModel.Generated
+
+/-- the `hasData` flag of a gob property mapper is monotone: taken over from at most one other mapper,
+and only before anything of its own is recorded; afterwards it is only ever set to `true`.  (A mapper
+that assigns an expression to the flag can switch it off again and encode a value that has data as no
+bytes at all.) -/
+def flagEventsOK : List String → Bool
+  | [] => true
+  | e :: r => (e == "true" || e.startsWith "del:") && r.all (· == "true")
+
+theorem C03_flags : gobFlagEvents.all (fun e => flagEventsOK e.2) = true := by
+  simp [gobFlagEvents, flagEventsOK]
+
+end APModel.Codec
